@@ -345,6 +345,19 @@ def subscribeRun (inner : String) (layers : List SubLayer) (msgs : List Msg) (re
   let rs := (msgs.take reads).map (deliver inner layers)
   (rs.map (·.1), (rs.map (·.2)).flatten)
 
+/-- `Close()` of a decorated subscriber whose wrapped subscriber DRAINS – it hands out the messages it had already
+    fetched while its own Close runs – with a consumer that keeps reading until the channel is closed: the decorator
+    calls the wrapped Close FIRST, while every pump is still forwarding, and releases the pumps (`closing`) only after it
+    returned; so everything handed out meanwhile goes through the stack like any other message -/
+def closeDrain (inner : String) (layers : List SubLayer) (drain : List Msg) : List Msg × List Watcher :=
+  let rs := drain.map (deliver inner layers)
+  (rs.map (·.1), (rs.map (·.2)).flatten)
+
+/-- seeded change round 6, C20/3: the pumps are released BEFORE the wrapped Close; a pump whose `closing` is already
+    closed may drop what it took (`keep i = false`) although the consumer is reading -/
+def closeDrainReleasedFirst (inner : String) (layers : List SubLayer) (keep : Nat → Bool) (drain : List Msg) : List Msg :=
+  ((drain.filter (fun m => keep m.id)).map (deliver inner layers)).map (·.1)
+
 /-! ## handler middleware and the Router around the three metrics -/
 
 /-- what the handler function does with one message -/
